@@ -144,6 +144,24 @@ static void gen_c03(const std::string& tier, std::vector<Case>& cases) {
             Case c; c.fund = S.fund; c.tx = S.tx; c.label = type + " hashtype=" + std::to_string(ht) + " valid"; c.klass = "valid-hashtype"; c.flags = F_STANDARD; cases.push_back(c);
         }
     }
+    // an amount prefix in front of the --tx hex together with --txin: the referenced output decides the amount (and with it the BIP143 / BIP341
+    // digest), whatever the prefix says - wrong amounts in every slot, in the spending input's slot only, the right amount, a short list
+    for (std::string type : {"p2pkh", "p2wpkh", "p2sh-p2wpkh", "p2wsh", "p2tr-key", "p2tr-script"}) {
+        auto pv = shapes_for(type, false)[1 % shapes_for(type, false).size()];
+        gen::Shape sh = shape_of(type, pv.first, pv.second);
+        gen::Spend S = gen::make_spend(type, sh, 1, 1, false);
+        auto btc = [](int64_t v) { char b[64]; snprintf(b, 64, "%lld.%08lld", (long long)(v / 100000000), (long long)(v % 100000000)); return std::string(b); };
+        auto join = [&](const std::vector<int64_t>& v) { std::string r; for (size_t i = 0; i < v.size(); i++) { if (i) r += ","; r += btc(v[i]); } return r; };
+        std::vector<std::pair<std::string, std::string>> prefixes;
+        { std::vector<int64_t> v(sh.nin, 12345678); prefixes.push_back({"a wrong amount in every slot", join(v)}); }
+        { std::vector<int64_t> v(sh.nin, 0); v[sh.pos] = 150000000; prefixes.push_back({"a wrong amount in the spending input's slot only", join(v)}); }
+        { std::vector<int64_t> v(sh.nin, 0); v[sh.pos] = sh.amount; prefixes.push_back({"the right amount", join(v)}); }
+        { std::vector<int64_t> v(sh.nin, 0); prefixes.push_back({"zero in every slot", join(v)}); }
+        { std::vector<int64_t> v(1, 99999999); prefixes.push_back({"a one-entry list", join(v)}); }
+        for (auto& pf : prefixes) for (int sel : {-1, sh.pos}) {
+            Case c; c.fund = S.fund; c.tx = S.tx; c.select = sel; c.amount_prefix = pf.second; c.label = type + " amount prefix with " + pf.first + " (" + pf.second + ") select=" + std::to_string(sel); c.klass = "valid-amount-prefix"; cases.push_back(c);
+        }
+    }
     // wide transactions: the spending input at positions around 127/128, 255/256 and at the end of a 300-input transaction, the spent
     // output at positions around 255/256 and at the end of a 300-output funding transaction (an index kept in a narrow type selects
     // another input's signature data, sequence or amount); legacy, P2SH, BIP143 and wrapped forms, hash types ALL and SINGLE|ANYONECANPAY
@@ -435,6 +453,22 @@ static void run_tap(const TapCase& t, Violations& V, std::map<std::string, long 
     if (ok != tv.ok) rep(std::string("c05:verdict:") + (tv.ok ? "valid-rejected:" : "invalid-accepted:") + t.klass, std::string("BIP341 says ") + (tv.ok ? "valid" : "invalid") + ", the stepwise check says " + (ok ? "Done" : "Failed"));
 }
 
+// the debugger's own verdict for an auto-configured --tx/--txin session under `flags`: 1 success, 0 failure or refusal (C09, spend level)
+static int impl_verdict(const Case& c, uint32_t flags) {
+    impl::quiet_globals();
+    Instance inst;
+    std::string txs = hex(ser_tx(c.tx)), fins = hex(ser_tx(c.fund));
+    try {
+        if (!inst.parse_transaction(txs.c_str(), true)) return 0;
+        if (!inst.parse_input_transaction(fins.c_str(), c.select)) return 0;
+        if (!inst.configure_tx_txin()) return 0;
+        if (!inst.setup_environment(flags)) return 0;
+        int guard = 0;
+        while (!inst.at_end() && guard++ < 100000) if (!inst.step()) return 0;
+        return inst.at_end() ? 1 : 0;
+    } catch (const std::exception&) { return 0; }
+}
+
 int main(int argc, char** argv) {
     Args a(argc, argv);
     ECCVerifyHandle ecc;
@@ -446,8 +480,10 @@ int main(int argc, char** argv) {
         JParser p(read_file(a.get("replay"))); JVal v = p.parse(); const JVal& r = v.has("replay") ? v["replay"] : v;
         Violations V1, V2;
         for (Violations* vv : {&V1, &V2}) {
-            if (r["mode"].s == "c05") { TapCase t{unhex(r["control"].s), unhex(r["script"].s), unhex(r["program"].s), r["label"].s, "replay"}; std::map<std::string, long long> h; run_tap(t, *vv, h); }
-            else { Case c; parse_tx(unhex(r["tx"].s), c.tx); parse_tx(unhex(r["txin"].s), c.fund); c.select = int(r["select"].i()); c.flags = uint32_t(r["flags"].i()); c.label = r["label"].s; c.klass = r["klass"].s; sc::Stats s; sc::compare_session(c, *vv, s, "mc_spend", "c03", vv == &V1); }
+            if (r["mode"].s == "c09s") { Case c; parse_tx(unhex(r["tx"].s), c.tx); parse_tx(unhex(r["txin"].s), c.fund); c.select = int(r["select"].i()); int b = int(r["bit"].i());
+                if (impl_verdict(c, F_STANDARD | (1u << b)) == 1 && impl_verdict(c, F_STANDARD & ~(1u << b)) == 0) vv->add(std::string("c09:spend-monotonicity:+") + alpha::flag_name(b), r["label"].s + ": succeeds with the flag set and fails without it", J::raw("{}")); }
+            else if (r["mode"].s == "c05") { TapCase t{unhex(r["control"].s), unhex(r["script"].s), unhex(r["program"].s), r["label"].s, "replay"}; std::map<std::string, long long> h; run_tap(t, *vv, h); }
+            else { Case c; parse_tx(unhex(r["tx"].s), c.tx); parse_tx(unhex(r["txin"].s), c.fund); c.select = int(r["select"].i()); c.flags = uint32_t(r["flags"].i()); c.label = r["label"].s; c.klass = r["klass"].s; c.amount_prefix = r["amount_prefix"].s; sc::Stats s; sc::compare_session(c, *vv, s, "mc_spend", "c03", vv == &V1); }
         }
         if (V1.j().s != V2.j().s) { fprintf(stderr, "NONDETERMINISTIC replay\n"); return 2; }
         for (auto& kv : V1.by_key) printf("DIVERGENCE %s: %s\n", kv.first.c_str(), kv.second.first.what.c_str());
@@ -466,6 +502,43 @@ int main(int argc, char** argv) {
         { JObj o; for (auto& kv : S.by_type) o.put(kv.first, kv.second); res.put("by_type", o.j()); }
         { JObj o; for (auto& kv : S.outcomes) o.put(kv.first, kv.second); res.put("outcomes", o.j()); }
         res.put("samples", J::strs(samples));
+    } else if (mode == "c09s") {
+        // C09, spend level: for --tx/--txin sessions (valid spends of every output type and their hand-made invalid relatives: non-push-only
+        // scriptSigs, conditionals spanning scripts, witness removed ...) the DEBUGGER's own verdict is monotone in the flag set: for every
+        // non-activation flag f, success under (STANDARD with f) implies success under (STANDARD without f). No reference is involved.
+        std::vector<Case> cases; gen_c03(tier, cases); gen_c03_extended(cases);
+        std::vector<Case> base;
+        { std::set<std::string> seen; for (auto& c : cases) { if (c.flags != F_STANDARD || !c.amount_prefix.empty() || c.tx.vin.size() > 8) continue; std::string k = hex(ser_tx(c.tx)) + hex(ser_tx(c.fund)) + std::to_string(c.select); if (seen.insert(k).second) base.push_back(c); } }
+        // hand-made relatives that only matter under non-standard flags
+        { gen::Shape sh = shape_of("p2pkh", 1, 1);
+          auto add = [&](const std::string& label, const gen::Spend& S, std::function<void(Tx&, Tx&)> f) { Case c; c.fund = S.fund; c.tx = S.tx; f(c.fund, c.tx); c.label = "c09s: " + label; c.klass = "c09s"; base.push_back(c); };
+          { gen::Spend S = gen::make_spend("p2sh-multisig", sh); add("P2SH spend, OP_NOP in front of the scriptSig", S, [&](Tx&, Tx& t) { bytes& ss = t.vin[1].script_sig; ss.insert(ss.begin(), 0x61); });
+            add("P2SH spend, OP_DUP OP_DROP after the redeem script push", S, [&](Tx&, Tx& t) { bytes& ss = t.vin[1].script_sig; ss.push_back(0x76); ss.push_back(0x75); }); }
+          { gen::Spend S = gen::make_spend("p2pk", sh);
+            add("P2SH output with redeem script OP_1, scriptSig OP_NOP <redeem>", S, [&](Tx& f, Tx& t) { bytes h = hash160(bytes{0x51}); bytes spk{0xa9, 0x14}; spk.insert(spk.end(), h.begin(), h.end()); spk.push_back(0x87); f.vout[1].spk = spk; t.vin[1].prev_hash = txid(f); t.vin[1].script_sig = unhex("610151"); });
+            add("P2SH output with redeem script OP_1, scriptSig <redeem> OP_DUP OP_DROP", S, [&](Tx& f, Tx& t) { bytes h = hash160(bytes{0x51}); bytes spk{0xa9, 0x14}; spk.insert(spk.end(), h.begin(), h.end()); spk.push_back(0x87); f.vout[1].spk = spk; t.vin[1].prev_hash = txid(f); t.vin[1].script_sig = unhex("01517675"); });
+            add("P2SH output with redeem script OP_1, push-only scriptSig", S, [&](Tx& f, Tx& t) { bytes h = hash160(bytes{0x51}); bytes spk{0xa9, 0x14}; spk.insert(spk.end(), h.begin(), h.end()); spk.push_back(0x87); f.vout[1].spk = spk; t.vin[1].prev_hash = txid(f); t.vin[1].script_sig = unhex("0151"); });
+            add("bare OP_1 output, scriptSig OP_NOP", S, [&](Tx& f, Tx& t) { f.vout[1].spk = unhex("51"); t.vin[1].prev_hash = txid(f); t.vin[1].script_sig = unhex("61"); }); } }
+        std::vector<int> bits; for (int b = 1; b <= 20; b++) if (b != 11 && b != 17) bits.push_back(b);   // every flag but the activation flags P2SH / WITNESS / TAPROOT (bit 5 = SIGPUSHONLY is not in STANDARD: added instead of removed)
+        long long edges = 0, changing = 0;
+        parallel_for(base.size(), default_workers(), tmp, "c09s",
+            [&](size_t i, FILE* o) {
+                Violations v; const Case& c = base[i];
+                sc::Plan P = sc::make_plan(c.tx, c.fund, c.select, F_STANDARD);
+                long long e = 0, ch = 0;
+                if (!P.refused && !P.out_of_scope) for (int b : bits) {
+                    uint32_t with = F_STANDARD | (1u << b), without = F_STANDARD & ~(1u << b);
+                    note(JObj().put("engine", "mc_spend").put("mode", "c09s").put("tx", hex(ser_tx(c.tx))).put("txin", hex(ser_tx(c.fund))).put("select", c.select).put("bit", b).put("label", c.label).j().s);
+                    int vw = impl_verdict(c, with), vo = impl_verdict(c, without); e++;
+                    if (vw != vo) ch++;
+                    if (vw == 1 && vo == 0) v.add(std::string("c09:spend-monotonicity:+") + alpha::flag_name(b), c.label + ": succeeds with " + alpha::flag_name(b) + " set and fails without it",
+                                                  JObj().put("engine", "mc_spend").put("mode", "c09s").put("tx", hex(ser_tx(c.tx))).put("txin", hex(ser_tx(c.fund))).put("select", c.select).put("bit", b).put("label", c.label).j());
+                }
+                v.dump(o); fprintf(o, "E\t%lld\t%lld\n", e, ch);
+            },
+            [&](size_t i, int st, const std::string& nt) { V.add("c09:spend-monotonicity:crash:" + crash_desc(st), "worker died (" + crash_desc(st) + ") on " + base[i].label, J::raw(nt.empty() ? "{}" : nt)); },
+            [&](const std::string& l) { if (l.empty()) return; if (l[0] == 'V') V.merge_line(l); else if (l[0] == 'E') { long long a, b; if (sscanf(l.c_str() + 2, "%lld\t%lld", &a, &b) == 2) { edges += a; changing += b; } } });
+        res.put("spends", base.size()).put("edges", edges).put("outcome_changing_edges", changing);
     } else if (mode == "c05") {
         std::vector<TapCase> cases; gen_c05(tier, cases);
         std::map<std::string, long long> hist; long long steps = 0;
